@@ -656,6 +656,50 @@ def monitor_accepts_model(ctx, prop, model_path, impl_complaints=()):
     return ncases - len({c for c, _ in bad})
 
 
+def buyer_world(ctx, prop):
+    """the buyer / validator side end to end (real ContractManager, ContractFactory, ControllerBuyer, store; fake node): every role x
+    destination kind x path x fault, judged by Driver/C16.lean monitorBW; complaints tagged with `prop` are violations of it"""
+    exe = build_harness(ctx, "contractmanager")
+    if not exe:
+        return 0
+    rc, out = run_harness(ctx, exe, "TestVerifBuyerWorld$", env={}, timeout=900)
+    if rc != 0:
+        ctx.tie_failures.append("buyer-world harness run failed (rc=%d): %s" % (rc, out[-300:]))
+        return 0
+    cases = dict(parse_cases(ctx.out + "/buyerworld.impl.txt"))
+    seen = set()
+    for case, c in run_monitor(ctx, "buyerworld", "buyerworld.impl.txt"):
+        body, _, op = c.partition(" @ ")
+        if not body.startswith(prop + " "):
+            continue
+        sig = prop.lower() + ":buyer-side-" + re.sub(r"-+", "-", re.sub(r"[^a-z]+", "-", re.sub(r"\(.*?\)|'.*?'", "", body[len(prop) + 1:]).lower())).strip("-")[:70]
+        if sig in seen:
+            continue
+        seen.add(sig)
+        violation(ctx, sig, body[len(prop) + 1:] + " @ " + op, {"clause": body, "case": case, "ops": [l for l in cases.get(case, []) if l.startswith("> ")],
+                                                               "how_to_replay": "bin/check %s --tier quick (the buyer-side histories are a fixed list; the op names the one that fails)" % ctx.pid})
+    ctx.coverage["buyer_side_histories"] = len(cases)
+    return len(cases)
+
+
+def buyer_world_replay(ctx, prop, path):
+    """replay of a buyer-side history: None when the file is not one; the histories are a fixed list, the op names the one"""
+    rp = json.load(open(path))
+    ops = [o[2:] if o.startswith("> ") else o for o in rp.get("ops", [])]
+    if not ops or not ops[0].startswith("world role="):
+        return None
+    exe = build_harness(ctx, "contractmanager")
+    if not exe or not build_driver(ctx):
+        print("cannot build harness/driver: %s" % ctx.tie_failures)
+        return 2
+    run_harness(ctx, exe, "TestVerifBuyerWorld$", env={}, timeout=900)
+    hit = [x for c, x in run_monitor(ctx, "buyerworld", "buyerworld.impl.txt") if x.startswith(prop + " ") and x.endswith(" @ " + ops[0])]
+    for x in hit:
+        print(x)
+    print("REPLAY: %s" % ("the violation reproduces" if hit else "no violation"))
+    return 1 if hit else 0
+
+
 def handle_complaints(ctx, complaints, sig_of):
     """PROP complaints are property violations (with the op as replay), CORR ones a broken tie"""
     for case, c in complaints:
